@@ -523,7 +523,7 @@ public:
 		static_assert(TMode == SerializeMode::Load, "BitSerializer. This data type can be used only in 'Load' mode.");
 		rapidjson::IStreamWrapper isw(encodedInputStream);
 		rapidjson::AutoUTFInputStream<uint32_t, rapidjson::IStreamWrapper> eis(isw);
-		if (mRootJson.ParseStream(eis).HasParseError()) {
+		if (mRootJson.template ParseStream<rapidjson::kParseDefaultFlags, rapidjson::AutoUTF<uint32_t>>(eis).HasParseError()) {
 			throw ParsingException(rapidjson::GetParseError_En(mRootJson.GetParseError()), 0, mRootJson.GetErrorOffset());
 		}
 	}
